@@ -25,6 +25,7 @@ HasReply == "signed" \in DOMAIN e.reply
 HasMac == "macPresent" \in DOMAIN e.reply
 ReqAllowed ==
     /\ C13_EffectOk(e.r, e.p, e.effect)
+    /\ C13_HonouredOk(e.r, e.p, e.effect)
     /\ HasReply => C13_ReplyOk(e.r, e.p, e.effect, e.reply)
     /\ HasMac => C13_NoOracleOk(e.r, e.reply.macPresent)
 
